@@ -48,6 +48,7 @@ inductive Eff
   | toClient (plain : List UInt8)
   | closed (status : String) (cp pt tp : Nat) (pcNonZero : Bool)
   | closeClass (c : String)
+  | serverFin (when : String)   -- "early": the proxy's FIN reaches a client that has not half-closed; "late"; "-"
 deriving Repr, DecidableEq
 
 structure Cfg where
@@ -91,7 +92,7 @@ def relayUp : List Chunk → List UInt8 × Bool
 /-- what the scripted target answers -/
 def targetReply (port : Nat) (received : List UInt8) (greeting : List UInt8) : List UInt8 :=
   if port == 9000 then received.reverse
-  else if port == 9001 || port == 9002 then greeting
+  else if port == 9001 || port == 9002 || port == 9004 then greeting
   else []
 
 def statusOfVerdict : IP.Verdict → String
@@ -122,8 +123,11 @@ def handle (c : Cfg) (st : AuthState) (s : Script) (valid : Nat → Bool) (srvSa
         let up := plain.drop alen ++ more
         let reply := targetReply port up (greeting port)
         let status := if err then "ERR_RELAY_CLIENT" else "OK"
+        -- the proxy half-closes towards the client when the TARGET's stream ends: before the client's own
+        -- FIN only for a target that half-closes first (port 9002)
+        let sfin := match s.clientEnd with | .fin => "-" | .idle => if port == 9002 then "early" else "late"
         (st', [.search found, .auth r.id, .dial, .toTarget up true] ++ (if reply.isEmpty then [] else [.toClient reply]) ++
-              [.closed status s.raw up.length reply.length (!reply.isEmpty), .closeClass lateClass])
+              [.closed status s.raw up.length reply.length (!reply.isEmpty), .closeClass lateClass, .serverFin sfin])
   | status =>
     let drain := match s.clientEnd with | .fin => "eof" | .idle => "timeout"
     (st', [.search found, .probe status.toString drain s.raw, .closed status.toString s.raw 0 0 false, .closeClass endClass])
